@@ -76,6 +76,8 @@ def run(ctx: Ctx) -> None:
         outs.append(check_case(ctx, case, ["corpus"]))
     n = ctx.budget(2000, 60000)
     for i in range(n):
+        if ctx.boost > 1 and ctx.violations and i >= 1000:
+            break  # the boosted run is a search for a failing input: one has been found
         rng = ctx.subrng("loop", i)
         case, tags = g.gen_loop_case(rng)
         cases.append(case)
